@@ -7,9 +7,12 @@ whether the property's clauses hold for that step.
 
 Clauses (property C16):
 * `size`     the pixel buffer keeps its size
-* `frame`    every stored bit (padding bits included) outside `clip ∩ footprint(op)` is unchanged
+* `frame`    every stored bit (padding bits included) outside `clip ∩ footprint(op)` is unchanged; the footprint of a
+             corner helper is the part of its radius box in the quadrants (half planes) its corner name selects
 * `exact`    single pixels, straight lines and filled rectangles set every pixel of
              `clip ∩ footprint` to the drawing colour (xor inversion)
+* `tail`     a buffer longer than the `wib·H` bytes of the canvas rows (installed by `CreateFromBytes`) keeps every
+             byte beyond them
 `clip` is canvas ∩ bounding box (all four sides).
 -/
 namespace RawPanelVerif.Spec.Mono
@@ -53,6 +56,20 @@ def fpCirc (x0 y0 r : Int) (X Y : Int) : Bool :=
 def fpFCirc (x0 y0 r delta : Int) (X Y : Int) : Bool :=
   r ≥ 0 && inBox (x0 - r) (y0 - r) (x0 + r + 1) (y0 + r + 1 + delta) X Y
 
+/-- bit `m` (1, 2, 4 or 8) of a corner name (`cornername & m > 0`; two's complement for negative names) -/
+def cbit (corner : Int) (m : Nat) : Bool := (corner.emod 16).toNat / m % 2 == 1
+
+/-- `DrawCircleHelper`: the quarter arcs selected by the corner name — bit 1 upper left, 2 upper right, 4 lower right,
+8 lower left of the centre — inside the radius box -/
+def fpCircQ (x0 y0 r corner : Int) (X Y : Int) : Bool :=
+  fpCirc x0 y0 r X Y &&
+  ((cbit corner 4 && x0 ≤ X && y0 ≤ Y) || (cbit corner 2 && x0 ≤ X && Y ≤ y0) ||
+   (cbit corner 8 && X ≤ x0 && y0 ≤ Y) || (cbit corner 1 && X ≤ x0 && Y ≤ y0))
+
+/-- `FillCircleHelper`: bit 1 fills to the right of the centre column, bit 2 to the left -/
+def fpFCircQ (x0 y0 r corner delta : Int) (X Y : Int) : Bool :=
+  fpFCirc x0 y0 r delta X Y && ((cbit corner 1 && x0 ≤ X) || (cbit corner 2 && X ≤ x0))
+
 /-- geometric footprint of an operation, in coordinates relative to the bounding-box origin -/
 def footprintRel : Op → Int → Int → Bool
   | .px x y _, X, Y => X == x && Y == y
@@ -64,14 +81,14 @@ def footprintRel : Op → Int → Int → Bool
       inBox (x + r) (y + h - 1) (x + r + (w - 2 * r)) (y + h) X Y ||
       inBox x (y + r) (x + 1) (y + r + (h - 2 * r)) X Y ||
       inBox (x + w - 1) (y + r) (x + w) (y + r + (h - 2 * r)) X Y ||
-      fpCirc (x + r) (y + r) r X Y || fpCirc (x + w - r - 1) (y + r) r X Y ||
-      fpCirc (x + w - r - 1) (y + h - r - 1) r X Y || fpCirc (x + r) (y + h - r - 1) r X Y
+      fpCircQ (x + r) (y + r) r 1 X Y || fpCircQ (x + w - r - 1) (y + r) r 2 X Y ||
+      fpCircQ (x + w - r - 1) (y + h - r - 1) r 4 X Y || fpCircQ (x + r) (y + h - r - 1) r 8 X Y
   | .frrect x y w h r _, X, Y =>
       inBox (x + r) y (x + r + (w - 2 * r)) (y + h) X Y ||
-      fpFCirc (x + w - r - 1) (y + r) r (h - 2 * r - 1) X Y ||
-      fpFCirc (x + r) (y + r) r (h - 2 * r - 1) X Y
-  | .circ x0 y0 r _ _, X, Y => fpCirc x0 y0 r X Y
-  | .fcirc x0 y0 r _ delta _, X, Y => fpFCirc x0 y0 r delta X Y
+      fpFCircQ (x + w - r - 1) (y + r) r 1 (h - 2 * r - 1) X Y ||
+      fpFCircQ (x + r) (y + r) r 2 (h - 2 * r - 1) X Y
+  | .circ x0 y0 r k _, X, Y => fpCircQ x0 y0 r k X Y
+  | .fcirc x0 y0 r k delta _, X, Y => fpFCircQ x0 y0 r k delta X Y
   | .bitmap x y w h, X, Y => inBox x y (x + w) (y + h) X Y
   | .glyph x y cw bbH tsH tsV, X, Y => inBox x y (x + cw * tsH) (y + bbH * tsV) X Y
   | .text, _, _ => true
@@ -113,7 +130,14 @@ def check (g : G) (op : Op) (lenBefore lenAfter : Nat) (before after : Nat → N
       let inFp := clip g p.1 p.2 && footprint g op p.1 p.2
       some s!"{if inFp then "exact" else "frame"}@{p.1},{p.2}"
 
+/-- bytes beyond the canvas rows: `before`/`after` read a byte of the observed buffers -/
+def tailOk (g : G) (lenBefore : Nat) (before after : Nat → Nat) : Bool :=
+  (List.range (lenBefore - g.wib * g.H)).all (fun k => after (g.wib * g.H + k) == before (g.wib * g.H + k))
+
 def checkBytes (g : G) (op : Op) (before after : Array UInt8) : Option String :=
-  check g op before.size after.size (bitAt g.wib before) (bitAt g.wib after)
+  match check g op before.size after.size (bitAt g.wib before) (bitAt g.wib after) with
+  | some cl => some cl
+  | none =>
+    if tailOk g before.size (fun i => (before.getD i 0).toNat) (fun i => (after.getD i 0).toNat) then none else some "tail"
 
 end RawPanelVerif.Spec.Mono
